@@ -2,6 +2,7 @@
 //! validates against the TLA+ specifications in /verif/spec. See /verif/DESIGN.md.
 use kvc::util::Opts;
 mod c10;
+mod hist;
 
 fn main() {
     let args: Vec<String> = std::env::args().collect();
@@ -12,6 +13,7 @@ fn main() {
     let opts = Opts::parse(&args[2..]);
     let rc = match args[1].as_str() {
         "c10" => c10::run(&opts),
+        "hist" => hist::run(&opts),
         other => {
             eprintln!("unknown subcommand {other}");
             2
